@@ -15,8 +15,8 @@ ENGINES = [
 NOTES = ('Static analysis only: no registered check executes dnssector code or calls a solver. Each ./check re-extracts MIR facts from '
          "$VERIF_REPO (default /repo)'s working tree into a fresh temporary target directory. See DESIGN.md. "
          'One known finding is reported on every run (C06: D18, pointer chains deeper than the parser follows; known_findings.json). '
-         'The rules were exercised with 162 independently seeded breaking changes (seeded/; the last 18 hide the defect inside a refactoring '
-         'commit) and 87 behaviour-preserving refactors (refactors/: 18 small everyday edits, all silent under all 18 checks; two independent medium '
+         'The rules were exercised with 180 independently seeded breaking changes (seeded/; wave i hides the defect inside a refactoring '
+         'commit, wave j aims at the clause least likely to be watched) and 87 behaviour-preserving refactors (refactors/: 18 small everyday edits, all silent under all 18 checks; two independent medium '
          'waves, 17 of 18 silent each - the second one 15 of 18 as the checks stood, before anything was adjusted to it; 18 heavy restructurings, 10 '
          'silent; 15 repaired halves of the hidden-defect wave, 13 silent while their seeded twins alarm); the restructurings that still raise an '
          'alarm although the property holds are listed in DESIGN.md section 7 and kept under selftest/pending.')
@@ -61,6 +61,7 @@ CHECKS['C03'] = {
              ' (f) a step function returns None only on the true side of a `<header count | edns_count | rrs_left> == 0` test.'
              ' (g) the premise of the unchecked address readers: every accepting path with type A / AAAA passed the exact-size test.'
              ' (h) every assertion in the trusted name skipper is implied (linear entailment) by what the validator guarantees behind a name position.'
+             ' (j) who may produce an owner name: the vector filled by copy_raw_name reaches no callee but Compress::copy_uncompressed_name, name() hands out only the result of Compress::raw_name_to_str.'
              ' (i) every length demand of rr_ip beyond the 10 fixed record bytes (assertion or constant sub-slice) is dominated by the true edge of the record-type test whose validated size covers it.'),
     'note': 'Structural clauses only; the behavioural equality with an RFC 1035 decode is not claimed. Trusted: rustc MIR, the rule engines.',
 }
@@ -98,7 +99,9 @@ CHECKS['C11'] = {
              'Which records are yielded/survive for every deletion pattern is a run-time sequence property and is NOT decided.'
              ' (d) in delete the cursor offset is tested (VoidRecord) before any destructive event and before any unwrap/expect of it, in the ok_or, match and is_some forms.'
              ' (e) current_section answers only sections rrcount_dec has an arm for, each non-Question verdict dominated by offset >= that section\'s start.'
-             ' (f) the splice of a deletion happens only where the packet is known to be pointer-free (the C09.e automaton on delete).'),
+             ' (f) the splice of a deletion happens only where the packet is known to be pointer-free (the C09.e automaton on delete).'
+             ' (a, stale cursor) no cursor position that flows into the length handed to resize_rr is read where a relocation of the cursor can still follow; set_offset_next(offset) may be left to resize_rr when that ends with offset_next += shift.'
+             ' (g) every successful deletion resets the cached question (the C08.b automaton on delete): an emptied question reads as absent through the cached getters too.'),
     'note': 'Structural clauses only. Trusted: rustc MIR, rule engines.',
 }
 CHECKS['C12'] = {
@@ -153,7 +156,8 @@ CHECKS['C18'] = {
     'design_ref': 'DESIGN.md section 4, C18',
     'text': ('Proof of loop bounds for every input: each per-name loop (both name walkers) has a constant iteration bound found automatically (name_len - refs_allowed in [-16,255] => <= 272; name_len <= 255 => <= 128); '
              'the three section loops advance `offset` (<= len) by >= 11 bytes per iteration and the option loop is bounded; parse_rr / parse_question / skip_name are loop-free with a constant number of walk call sites. '
-             'Both arithmetic configurations (overflow checks on and off) are ranked on every run and a bound that is only the range of a counter\'s integer type is refused. '
+             'Both arithmetic configurations (overflow checks on and off) are ranked on every run and a bound that is only the range of a counter\'s integer type is refused; '
+             'with overflow checks off every addition / subtraction / multiplication in the validator scope must be shown not to wrap (the measures assume exact arithmetic). '
              'Hence steps <= a*len + b (the derived formula is printed in the evidence). A per-name loop whose best measure is only bounded by the buffer length is reported as quadratic.'
              ' Every external callee reachable from the per-record functions (walkers excluded) is listed as constant-time in tables/extern_cost.json and the validator keeps no growable collection besides the packet.'),
     'note': 'Trusted: analysis/interp.py, analysis/lin.py, rustc MIR. The cost model counts loop iterations and label bytes, as the property does; no step-counter hook is needed.',
